@@ -85,11 +85,17 @@ def structure(name, cliques, sz, rng):
 
 
 def worker(job):
-    st, damping, total, seed, pot_regions = job
+    st, damping, total, seed, pot_regions = job[:5]
+    variant = job[5] if len(job) > 5 else ""
     rs = np.random.RandomState(seed)
     try:
         dom = Domain(st["attrs"], [st["sz"][a] for a in st["attrs"]])
-        rg = RegionGraph(dom, st["cliques"], total=total, convex=True, iters=5000, convergence=1e-10, damping=damping)
+        if variant == "reassign":
+            # LocalInference assigns model.total on an oracle object it is handed: the total in force is the current attribute
+            rg = RegionGraph(dom, st["cliques"], total=total * 7.0 + 1.0, convex=True, iters=5000, convergence=1e-10, damping=damping)
+            rg.total = total
+        else:
+            rg = RegionGraph(dom, st["cliques"], total=total, convex=True, iters=5000, convergence=1e-10, damping=damping)
         regions = list(rg.cliques)
         if [tuple(r) for r in regions] != [tuple(r) for r in st["regions"]]:
             return {"err": "region list changed between constructions"}
@@ -97,6 +103,20 @@ def worker(job):
         for r in regions:
             on = pot_regions == "all" or r in st["cliques"]
             theta[r] = rs.uniform(-2, 2, dom.size(r)) if on else np.zeros(dom.size(r))
+        if variant == "spread":
+            # two input cliques that share an attribute get +K and -K on one of its values: each potential alone spans far
+            # more than the range of exp(), the optimum is a different but equally well-defined point of the local polytope
+            done = False
+            for p_ in st["cliques"]:
+                for q_ in st["cliques"]:
+                    sh = [a for a in p_ if a in q_]
+                    if p_ != q_ and sh and not done:
+                        a = sh[0]
+                        for r, sign in ((p_, 1.0), (q_, -1.0)):
+                            shape = [st["sz"][x] for x in r]
+                            ind = (np.indices(shape)[list(r).index(a)] == 0).reshape(-1)
+                            theta[r] = theta[r] + sign * 900.0 * ind
+                        done = True
         pv = CliqueVector({r: Factor(dom.project(r), theta[r].copy()) for r in regions})
         with np.errstate(all="ignore"):
             mu = rg.belief_propagation(pv)
@@ -169,13 +189,15 @@ def run(ctx, canary=False):
                 total = rng.choice([1.0, 10.0, 1000.0])
                 pr = rng.choice(["cliques", "all"])
                 seed = rng.randrange(10 ** 6)
-                jobs.append((s, damping, total, seed, pr)); meta.append((s["name"], damping, total, seed, pr))
+                variant = rng.choice(["", "", "reassign", "spread"])
+                jobs.append((s, damping, total, seed, pr, variant)); meta.append((s["name"], damping, total, seed, pr, variant))
     with multiprocessing.get_context("fork").Pool(16) as pool:
         results = pool.map(worker, jobs, chunksize=1)
     traces = []
     worst = 0.0
-    for (name, damping, total, seed, pr), res in zip(meta, results):
-        info = {"structure": name, "cliques": dict(STRUCTS)[name], "damping": damping, "total": total, "potential_seed": seed, "potentials_on": pr}
+    for (name, damping, total, seed, pr, variant), res in zip(meta, results):
+        info = {"structure": name, "cliques": dict(STRUCTS)[name], "damping": damping, "total": total, "potential_seed": seed, "potentials_on": pr,
+                "variant": variant}
         ctx.case(json.dumps(info, sort_keys=True), nontrivial=True)
         if "err" in res:
             ctx.violation("convex oracle raised %s" % res["err"], info, {"kind": "crash"})
